@@ -337,7 +337,15 @@ def run_task(name, fn, settings=None, timeout_ms=60000, both=False, min_return_p
         out.status, out.message = "error", "vacuous: %d completed paths (< %d)" % (out.returns, min_return_paths)
     # discharge, de-duplicating syntactically identical VCs
     cache = {}
+    n_bad = 0
     for ob in ex.obligations:
+        if n_bad >= 8 and ob.kind != "cover":
+            # the task has already failed: the remaining VCs are not worth their time-outs
+            out.vcs.append(VCResult(name + "/" + ob.name, "unknown", "skipped", 0.0, ob.where, ob.kind, path_id=ob.path_id,
+                                    reason="skipped after %d undischarged VCs in this task" % n_bad))
+            continue
+        if n_bad >= 1:
+            timeout_ms = min(timeout_ms, 8000)
         key = (ob.pc.get_id(), ob.goal.get_id())
         if key in cache:
             prev = cache[key]
@@ -387,10 +395,12 @@ def run_task(name, fn, settings=None, timeout_ms=60000, both=False, min_return_p
                 r2.name = full + "[known-finding-domain]"
                 out.vcs.append(r2)
             continue
-        r = discharge(ob, inputs_seen, timeout_ms, both=both)
+        r = discharge(ob, inputs_seen, timeout_ms, use_cvc5=(n_bad == 0), both=both and n_bad == 0)
         out.solver_seconds += r.seconds
         cache[key] = r
         r.name = full
         out.vcs.append(r)
+        if r.status != "valid":
+            n_bad += 1
     out.seconds = time.time() - t0
     return out
